@@ -352,7 +352,7 @@ func C05_ArithSkeleton() {
 	ws := func() {
 		if rt.Param("gaps", 1) == 1 && rt.Choose("ws", 2) == 1 {
 			b := rt.Byte("in")
-			rt.Assume(b == ' ' || b == '\n' || b == '\t')
+			rt.Assume(b == ' ' || b == '\n' || b == '\t' || b == '\f')
 			in = append(in, b)
 		}
 	}
